@@ -163,6 +163,47 @@ def _version_chunk(args):
                            "attrs": attrs, "probes": probes})
         except Exception as ex:
             events.append({"harness_error": repr(ex), "where": "%s %s" % (v, seg)})
+    # fields of a BASE datatype: <field>_1 designates their only component (named after the datatype); which datatypes are
+    # base depends on the version (TN up to 2.4, IS from 2.3, DTM from 2.5 ...)
+    pr = []
+    done = set()
+    for seg in segs:
+        for r in (T.seg_rows(v, seg) or []):
+            if r["kind"] != "base" or r["max"] == 0 or r["dt"] in done or r["name"] in ("MSH_1", "MSH_2"):
+                continue
+            done.add(r["dt"])
+            val = {"SI": "1", "NM": "1", "DT": "20200101", "TM": "1201", "DTM": "20200101", "TS": "20200101"}.get(r["dt"], "A")
+            path = "%s_1" % r["name"].lower()
+            for spell in (path, path.upper()):
+                try:
+                    f = Field(r["name"], version=v)
+                    setattr(f, spell, val)
+                    px = getattr(f, spell)
+                    pr.append({"t": spell.upper(), "how": "positional_on_base_field", "got": px.element_name if len(px) else "-",
+                               "same": True, "val": px[0].to_er7() if len(px) else "", "want": val, "positional": True, "expect": r["dt"]})
+                except Exception as ex:
+                    pr.append({"t": spell.upper(), "how": "positional_on_base_field", "got": "!", "same": True, "val": exc_name(ex),
+                               "want": "", "positional": True, "expect": r["dt"]})
+    if pr:
+        events.append({"kind": "base_field_path", "v": v, "parent": "fields of base datatypes", "rows": [], "attrs": [], "probes": pr})
+    # a field whose complex datatype is overridden (TOLERANT): the components of the NEW datatype, by every spelling
+    for (seg, fname, i, dt) in dts[:2]:
+        others = [d for d in T.complex_datatypes(v) if d != dt and T.dt_rows(v, d)]
+        if not others or not dt:
+            continue
+        nd = rnd.choice(others)
+        comps = T.dt_rows(v, nd)
+        rows = [(c["name"], c["long"]) for c in comps]
+        attrs = [a.upper() for a in Field.cls_attrs]
+        olds = T.dt_rows(v, dt) or []
+        foreign = ["%s_1" % dt.lower()] + [c["long"].lower() for c in olds[:2] if c.get("long") and c["long"] not in [x.get("long") for x in comps]]
+        foreign = [x for x in foreign if x.upper() not in attrs]        # (a long name equal to an attribute name is shadowed)
+        try:
+            probes = probe_parent(lambda: Field(fname, datatype=nd, version=v), rows, attrs, foreign, rnd)
+            events.append({"kind": "field_overridden", "v": v, "parent": "%s(%s->%s)" % (fname, dt, nd), "rows": [[a, b or ""] for a, b in rows],
+                           "attrs": attrs, "probes": probes})
+        except Exception as ex:
+            events.append({"harness_error": repr(ex), "where": "%s %s override %s" % (v, fname, nd)})
     # fields of complex datatype: components by name / long / positional path, subcomponents likewise
     for (seg, fname, i, dt) in dts:
         comps = T.dt_rows(v, dt)
